@@ -49,6 +49,41 @@ def helper_fn(ctx):
     return g
 
 
+def helper_where_form(ctx, f):
+    """the helper written without a store:  return np.where(<ids != SENTINEL, broadcast over the trailing axes>, arr[ids, ...], <zeros>)
+    -> (gather expr, mask core expr, polarity True if the gather is taken where the mask holds) or None"""
+    env = single_defs(f.node)
+    rets = returns(f.node)
+    if len(rets) != 1:
+        return None
+    e = inline(rets[0].value, env)
+    if not (isinstance(e, ast.Call) and call_name(e) == "np.where" and len(e.args) == 3 and not e.keywords):
+        return None
+    m, a, b = e.args
+
+    def zeros(x):
+        t = U(x).replace(" ", "")
+        return t in ("0", "0.0") or (isinstance(x, ast.Call) and call_name(x) in ("np.zeros_like", "np.zeros") and True)
+
+    def core(x):
+        # strip reshapes / added trailing axes: they only broadcast the per-row flag over the embedding axes
+        while True:
+            if isinstance(x, ast.Call) and call_name(x) in ("np.reshape", "np.expand_dims") and x.args:
+                x = x.args[0]
+            elif isinstance(x, ast.Call) and isinstance(x.func, ast.Attribute) and x.func.attr == "reshape":
+                x = x.func.value
+            elif isinstance(x, ast.Subscript) and isinstance(x.slice, ast.Tuple) and all((isinstance(t, ast.Constant) and t.value in (None, Ellipsis)) or
+                                                                                       (isinstance(t, ast.Slice) and t.lower is None and t.upper is None) for t in x.slice.elts):
+                x = x.value
+            else:
+                return x
+    if zeros(b) and not zeros(a):
+        return a, core(m), True
+    if zeros(a) and not zeros(b):
+        return b, core(m), False
+    return None
+
+
 def predict_roots(ctx):
     R = ctx.R
     out = []
@@ -98,6 +133,9 @@ def r1(ctx):
     f = helper_fn(ctx)
     fr = Freshness(f.node)
     st = [m for m in fr.mutations() if m[2] == "subscript-store"]
+    if not st and helper_where_form(ctx, f) is not None:
+        ctx.ok("R1", f"{f.site()}::zeroes-a-copy", "the helper builds its result with np.where (a new array): nothing it is given is modified")
+        return
     ctx.need(len(st) == 1, f"{HELPER}: expected exactly one zeroing store")
     v = fr.value(st[0][1])
     ctx.check("R1", f"{f.site()}::zeroes-a-copy", v[0] == FRESH, f"`{U(st[0][1])}` is an advanced-index gather (copy)",
@@ -174,7 +212,7 @@ def mean_form(ctx, q, swap=None, zero_col=None):
     rets = returns(f.node)
     mean_ret = None
     for r in rets:
-        v = inline_calls(inline(r.value, env), ctx.R, f.mod)
+        v = inline_calls(inline(r.value, env), ctx.R, f.mod, keep=(HELPER,))
         if not any(isinstance(x, ast.Call) and call_name(x) in ("expit", "np.exp") for x in ast.walk(v)) or len(rets) == 1:
             mean_ret = v
     ctx.need(mean_ret is not None, f"{f.site()}: mean return not found")
@@ -231,7 +269,40 @@ def r4(ctx):
     arr, ids = f.params[0], f.params[1]
     env = single_defs(f.node)
     st = [n for n in walk_own(f.node) if isinstance(n, ast.Assign) and isinstance(n.targets[0], ast.Subscript)]
-    ctx.need(len(st) == 1, f"{HELPER}: zeroing store not found")
+    wf = helper_where_form(ctx, f) if not st else None
+    if wf is not None:
+        g_, m_, pol_ = wf
+        N_ = Norm(strict=False)
+
+        def strip_arr(x):
+            while isinstance(x, ast.Call) and call_name(x) in ("np.asarray", "np.array") and x.args:
+                x = x.args[0]
+            return x
+        mm = m_
+        if isinstance(mm, ast.Compare):
+            import copy as _c
+            mm = _c.deepcopy(mm)
+            mm.left = strip_arr(mm.left)
+            mm.comparators = [strip_arr(c_) for c_ in mm.comparators]
+        want_keep = (N_.b(parse_expr(f"{ids} != CONTROL_SENTINEL_VALUE")), N_.b(parse_expr(f"{ids} != -1")))
+        want_zero = (N_.b(parse_expr(f"{ids} == CONTROL_SENTINEL_VALUE")), N_.b(parse_expr(f"{ids} == -1")))
+        sel_ok = N_.b(mm) in (want_keep if pol_ else want_zero)
+        g_ok = isinstance(g_, ast.Subscript) and U(g_.value) == arr and U(g_.slice).replace(" ", "") in (f"({ids},...)", f"{ids},...", ids, f"({ids},Ellipsis)")
+        sentinel = R.const_value(f.mod, "CONTROL_SENTINEL_VALUE")
+        sent_ok = sentinel is not None and U(sentinel) == "-1"
+        ctx.check("R4", f"{f.site()}::zeroes-sentinel-rows", g_ok and sel_ok and sent_ok,
+                  "np.where(ids != CONTROL_SENTINEL_VALUE (-1), arr[ids], 0): the gather where the row is treated, zero where it is the control",
+                  f"helper: gather `{U(g_)}`, kept where `{U(m_)}` is {pol_}, sentinel {U(sentinel) if sentinel is not None else None}")
+        st = None
+    if st is not None:
+        ctx.need(len(st) == 1, f"{HELPER}: zeroing store not found")
+    if st is None:
+        pair0 = mean_form(ctx, f"{SC}.predict", zero_col=1)
+        single = mean_form(ctx, f"{SC}.predict_single_drug")
+        ctx.check("R4", "models.sparse_combo.predict|second=control==predict_single_drug", pair0 == single,
+                  "the pair formula with the second treatment's gathers zeroed equals the single-agent formula",
+                  "a (treatment, control) pair is not predicted like the single agent: the formulas differ after zeroing the control's terms")
+        return
     tgt = st[0].targets[0]
     res = U(tgt.value)
     gathers = [n for n in walk_own(f.node) if isinstance(n, ast.Assign) and isinstance(n.targets[0], ast.Name) and n.targets[0].id == res]
@@ -278,7 +349,7 @@ def r5(ctx):
         N = Norm(strict=False)
         want = N.key(ast.Call(func=parse_expr("np.clip"), args=[ast.Call(func=ast.Name(id="expit", ctx=ast.Load()), args=[mu[0]], keywords=[])],
                               keywords=[ast.keyword(arg="a_min", value=ast.Constant(value=0.01)), ast.keyword(arg="a_max", value=ast.Constant(value=0.99))]))
-        vexpr = inline_calls(vr[0], ctx.R, f.mod)
+        vexpr = inline_calls(vr[0], ctx.R, f.mod, keep=(HELPER,))
         ctx.check("R5", f"{f.site()}::viability", N.key(vexpr) == want, "viability = clip(expit(Mu), 0.01, 0.99)",
                   f"viability is `{U(vexpr)[:200]}`, not np.clip(expit(<the mean return>), 0.01, 0.99)")
     for cq in (f"{SC}.SparseDrugComboMCMCSample", f"{SCI}.SparseDrugComboInteractionMCMCSample"):
